@@ -1,4 +1,4 @@
-(* C10 - fsesolve takes the initial state at t = 0 instead of tlist[0].
+(* C10 - fsesolve returns the initial state at tlist[0] (after a3f3594).
    Property theorems only; proofs in Proofs/C10_floquet.v.  to_fb / from_fb
    are the Floquet-basis oracle (numerics); the only thing assumed of them is
    that going to the basis and back at one and the same time is the
@@ -7,49 +7,48 @@ From Coq Require Import List ZArith.
 Import ListNotations.
 From QV Require Import Model.C10_floquet Proofs.C10_floquet.
 
-(* Full statement that every other solver satisfies and that the model of the
-   current code does NOT:
-     forall basis with roundtrip, psi0, t0, r,
-       hd_error (fsesolve ... psi0 (t0 :: r)) = Some psi0
-   (the state returned for tlist[0] is the initial state).  Refuted: *)
-Theorem C10_fsesolve_initial_state_refuted :
-  exists (to_fb : Z -> Z -> Z) (from_fb : Z -> Z -> Z),
-    (forall psi t, from_fb (to_fb psi t) t = psi) /\
-    exists psi0 t0 r,
-      hd_error (fsesolve Z Z Z 0%Z to_fb from_fb psi0 (t0 :: r)) <> Some psi0.
-Proof. exact fsesolve_initial_refuted. Qed.
-Print Assumptions C10_fsesolve_initial_state_refuted.
-
-(* what does hold for the code as it is: correct when the time list starts
-   at 0, for every Floquet basis *)
-Theorem C10_fsesolve_initial_state_partial :
-  forall (S F T : Type) (tzero : T) (to_fb : S -> T -> F) (from_fb : F -> T -> S),
+(* for every Floquet basis, initial state and non-empty time list (starting
+   anywhere): one state per time, the first one is the initial state, and the
+   k-th one is the initial state carried from tlist[0] to tlist[k] - what
+   sesolve and FMESolver.run mean by "state0 is the state at tlist[0]" *)
+Theorem C10_fsesolve_initial_state :
+  forall (S F T : Type) (to_fb : S -> T -> F) (from_fb : F -> T -> S),
     (forall psi t, from_fb (to_fb psi t) t = psi) ->
-    forall psi0 r,
-      hd_error (fsesolve S F T tzero to_fb from_fb psi0 (tzero :: r)) = Some psi0.
-Proof. intros S F T tzero to_fb from_fb H psi0 r. exact (fsesolve_t0_zero S F T tzero to_fb from_fb H psi0 r). Qed.
-Print Assumptions C10_fsesolve_initial_state_partial.
-
-(* the proposed repair (to_floquet_basis(psi0, tlist[0])) satisfies the full
-   statement and does not change any result for time lists starting at 0 *)
-Theorem C10_fsesolve_repaired :
-  forall (S F T : Type) (tzero : T) (to_fb : S -> T -> F) (from_fb : F -> T -> S),
-    (forall psi t, from_fb (to_fb psi t) t = psi) ->
-    (forall psi0 t0 r,
-       hd_error (fsesolve_at_t0 S F T to_fb from_fb psi0 (t0 :: r)) = Some psi0) /\
-    (forall psi0 r,
-       fsesolve_at_t0 S F T to_fb from_fb psi0 (tzero :: r)
-       = fsesolve S F T tzero to_fb from_fb psi0 (tzero :: r)).
+    forall psi0 t0 r,
+      exists states,
+        fsesolve S F T to_fb from_fb psi0 (t0 :: r) = Some states /\
+        hd_error states = Some psi0 /\ length states = length (t0 :: r) /\
+        forall k t, nth_error (t0 :: r) k = Some t ->
+                    nth_error states k = Some (from_fb (to_fb psi0 t0) t).
 Proof.
-  intros S F T tzero to_fb from_fb H. split.
-  - intros psi0 t0 r. exact (fsesolve_at_t0_initial S F T to_fb from_fb H psi0 t0 r).
-  - intros psi0 r. exact (fsesolve_at_t0_same_when_zero S F T tzero to_fb from_fb psi0 r).
+  intros S F T to_fb from_fb H psi0 t0 r.
+  destruct (fsesolve_initial S F T to_fb from_fb H psi0 t0 r) as (st & E & Hh & Hl).
+  exists st. split; [exact E|]. split; [exact Hh|]. split; [exact Hl|].
+  intros k t Hk. exact (fsesolve_states S F T to_fb from_fb psi0 t0 r st k t E Hk).
 Qed.
-Print Assumptions C10_fsesolve_repaired.
+Print Assumptions C10_fsesolve_initial_state.
 
-(* the hypothesis is satisfiable and the model is not trivial *)
+(* error branch of the totalised model: an empty time list has no tlist[0] *)
+Theorem C10_fsesolve_empty_tlist :
+  forall (S F T : Type) (to_fb : S -> T -> F) (from_fb : F -> T -> S) psi0,
+    fsesolve S F T to_fb from_fb psi0 [] = None.
+Proof. intros. apply fsesolve_empty. Qed.
+Print Assumptions C10_fsesolve_empty_tlist.
+
+(* the repair changed nothing for time lists that start at the old default *)
+Theorem C10_fsesolve_agrees_with_old_rule_from_zero :
+  forall (S F T : Type) (to_fb : S -> T -> F) (from_fb : F -> T -> S) (tzero : T) psi0 r,
+    fsesolve S F T to_fb from_fb psi0 (tzero :: r)
+    = Some (old_fsesolve S F T to_fb from_fb tzero psi0 (tzero :: r)).
+Proof. intros. apply old_fsesolve_same_when_zero. Qed.
+Print Assumptions C10_fsesolve_agrees_with_old_rule_from_zero.
+
+(* the hypothesis is satisfiable, the model is not trivial, and the rule
+   before a3f3594 (psi0 expanded at t = 0) did violate the statement: for
+   tlist = [5; 6] it returned 12 instead of the initial state 7 *)
 Example C10_nonvacuous_fsesolve :
   (forall psi t, toy_from (toy_to psi t) t = psi) /\
-  toy_fsesolve 7 [0; 2; 5]%Z = [7; 9; 12]%Z /\
-  toy_fsesolve 7 [5; 6]%Z = [12; 13]%Z /\ toy_fsesolve_at_t0 7 [5; 6]%Z = [7; 8]%Z.
+  toy_fsesolve 7 [0; 2; 5]%Z = Some [7; 9; 12]%Z /\
+  toy_fsesolve 7 [5; 6]%Z = Some [7; 8]%Z /\
+  toy_old_fsesolve 7 [5; 6]%Z = [12; 13]%Z.
 Proof. split; [exact toy_roundtrip|]. vm_compute. repeat split. Qed.
